@@ -54,8 +54,33 @@ theorem gen_skeletons :
     Gen.C01.eidMarshal = Expected.C01.eidMarshal ∧
     Gen.C01.eidUnmarshal = Expected.C01.eidUnmarshal ∧
     Gen.C01.dtnUnmarshal = Expected.C01.dtnUnmarshal ∧
-    Gen.C01.calculateCRCBuff = Expected.C01.calculateCRCBuff :=
-  ⟨rfl, rfl, rfl, rfl, rfl, rfl, rfl, rfl, rfl, rfl, rfl, rfl⟩
+    Gen.C01.calculateCRCBuff = Expected.C01.calculateCRCBuff ∧
+    Gen.C01.dtnMarshal = Expected.C01.dtnMarshal ∧
+    Gen.C01.ipnMarshal = Expected.C01.ipnMarshal ∧
+    Gen.C01.ipnUnmarshal = Expected.C01.ipnUnmarshal ∧
+    Gen.C01.timestampMarshal = Expected.C01.timestampMarshal ∧
+    Gen.C01.timestampUnmarshal = Expected.C01.timestampUnmarshal ∧
+    Gen.C01.payloadMarshal = Expected.C01.payloadMarshal ∧
+    Gen.C01.payloadUnmarshal = Expected.C01.payloadUnmarshal ∧
+    Gen.C01.genericMarshal = Expected.C01.genericMarshal ∧
+    Gen.C01.genericUnmarshal = Expected.C01.genericUnmarshal ∧
+    Gen.C01.prevNodeMarshal = Expected.C01.prevNodeMarshal ∧
+    Gen.C01.prevNodeUnmarshal = Expected.C01.prevNodeUnmarshal ∧
+    Gen.C01.ageMarshal = Expected.C01.ageMarshal ∧
+    Gen.C01.ageUnmarshal = Expected.C01.ageUnmarshal ∧
+    Gen.C01.hopMarshal = Expected.C01.hopMarshal ∧
+    Gen.C01.hopUnmarshal = Expected.C01.hopUnmarshal ∧
+    Gen.C01.sprayMarshal = Expected.C01.sprayMarshal ∧
+    Gen.C01.sprayUnmarshal = Expected.C01.sprayUnmarshal ∧
+    Gen.C01.dtlsrMarshal = Expected.C01.dtlsrMarshal ∧
+    Gen.C01.dtlsrUnmarshal = Expected.C01.dtlsrUnmarshal ∧
+    Gen.C01.prophetMarshal = Expected.C01.prophetMarshal ∧
+    Gen.C01.prophetUnmarshal = Expected.C01.prophetUnmarshal ∧
+    Gen.C01.signatureMarshal = Expected.C01.signatureMarshal ∧
+    Gen.C01.signatureUnmarshal = Expected.C01.signatureUnmarshal ∧
+    Gen.C01.createBlock = Expected.C01.createBlock ∧
+    Gen.C01.parseDtnSsp = Expected.C01.parseDtnSsp :=
+  ⟨rfl, rfl, rfl, rfl, rfl, rfl, rfl, rfl, rfl, rfl, rfl, rfl, rfl, rfl, rfl, rfl, rfl, rfl, rfl, rfl, rfl, rfl, rfl, rfl, rfl, rfl, rfl, rfl, rfl, rfl, rfl, rfl, rfl, rfl, rfl, rfl, rfl⟩
 
 theorem gen_patterns : Gen.C01.dtnRegexpSsp = "//([\\w-._]+)/(.*)" ∧ Gen.C01.dtnNoneSsp = "none" := ⟨rfl, rfl⟩
 
@@ -140,6 +165,12 @@ theorem canonical_roundtrip (cfg : Cfg) (c : Canonical) (hc : Canonical.Enc cfg 
 theorem parsed_is_encodable (cfg : Cfg) (hs : cfg.strict = true) (bs : Bytes) (b : Bundle) (r : Bytes)
     (h : parseRaw cfg bs = .ok (b, r)) : Encodable cfg b :=
   Lemmas.parseRaw_inv hs h
+
+/-- The bound on the number of loop iterations in the model of `Bundle.UnmarshalCbor` (`fuel`) is
+not a restriction: any amount above the input length gives the same result. -/
+theorem block_loop_fuel_irrelevant (cfg : Cfg) (f1 f2 : Nat) (bs : Bytes) (h1 : bs.length < f1)
+    (h2 : bs.length < f2) : decBlocks cfg f1 bs = decBlocks cfg f2 bs :=
+  Lemmas.decBlocks_fuel cfg f1 f2 bs h1 h2
 
 /-! ### The code before the repairs: `accepted_reserialises` fails (witnesses for D5, D7, D6)
 
